@@ -914,7 +914,9 @@ func runCheck(prop, tier string, seed uint64, workers, budgetOverride int, keep,
 	if repoDir == "" {
 		repoDir = "/repo"
 	}
-	logf("harvested %d markup fragments from the repository's test files", gen.Harvest(repoDir))
+	nf := gen.Harvest(repoDir)
+	nv := gen.HarvestVocabulary(repoDir)
+	logf("harvested %d markup fragments from the repository's test files and %d vocabulary tokens (%d names) from its source", nf, nv, len(gen.VocabNames))
 	known := loadKnown()
 	budget := tierBudget(prop, tier, budgetOverride)
 	t0 := time.Now()
